@@ -160,3 +160,16 @@ CORPUS += [
     V("C18", "mtvrp-demand-lower-bound-shifted-up", _MG, ".uniform_(self.min_demand - 1, self.max_demand - 1)", ".uniform_(self.min_demand + 1, self.max_demand - 1)", "C18.g"),
     V("C18", "mtvrp-backhaul-upper-bound-of-the-linehauls", _MG, ".uniform_(self.min_backhaul - 1, self.max_backhaul - 1)", ".uniform_(self.min_backhaul - 1, self.max_demand - 1)", "C18.g"),
 ]
+
+_UTF = "rl4co/models/rl/common/utils.py"
+_BLF = "rl4co/models/rl/reinforce/baselines.py"
+_RFF = "rl4co/models/rl/reinforce/reinforce.py"
+_DSF = "rl4co/data/dataset.py"
+CORPUS += [
+    V("C20", "scaler-statistics-pinned-to-float32", _UTF, "        self.mean = 0\n        self.M2 = 0", "        self.mean = torch.zeros((), dtype=torch.float32)\n        self.M2 = torch.zeros((), dtype=torch.float32)", "C20.f"),
+    V("C20", "eq-scaler-statistics-float-zero", _UTF, "        self.mean = 0\n        self.M2 = 0", "        self.mean = 0.0\n        self.M2 = 0.0", None),
+    V("C20", "warmup-shares-the-inner-moving-average", _BLF, "        self.warmup_baseline = ExponentialBaseline(warmup_exp_beta)", "        self.warmup_baseline = baseline if isinstance(baseline, ExponentialBaseline) else ExponentialBaseline(warmup_exp_beta)", "C20.f"),
+    V("C20", "epoch-callback-skipped-for-the-last-epoch", _RFF, "        self.baseline.epoch_callback(\n            self.policy,", "        if self.current_epoch < self.trainer.max_epochs - 1:\n          self.baseline.epoch_callback(\n            self.policy,", "C20.f"),
+    V("C20", "warmup-factory-nests-warmups", _BLF, 'inner_baseline = kw.pop("baseline", "rollout_only")', 'inner_baseline = kw.pop("baseline", "rollout")', "C20.e"),
+    V("C17", "batched-fetch-added-to-the-parent", _DSF, "    def add_key(self, key, value):\n        return ExtraKeyDataset(self, value, key_name=key)", "    def __getitems__(self, idx):\n        return [self.data[i] for i in idx]\n\n    def add_key(self, key, value):\n        return ExtraKeyDataset(self, value, key_name=key)", "C17.f"),
+]
